@@ -169,9 +169,10 @@ def detrend_1d(arr):
         raise ValueError("Input array must be non-empty.")
     if m == 1:
         return np.zeros(1, dtype=arr.dtype)
-    x_sum = m * (m - 1) / 2
+    mf = float(m)
+    x_sum = mf * (mf - 1) / 2
     y_sum = 0.0
-    x_sq_sum = m * (m - 1) * (2 * m - 1) / 6
+    x_sq_sum = mf * (mf - 1) * (2 * mf - 1) / 6
     x_y_sum = 0.0
     for i in range(m):
         y_sum += arr[i]
